@@ -159,8 +159,11 @@ def rule_stale_before_swap(chk, db, cfgname):
                     for v in e['vars']:
                         if not isinstance(v.get('init'), dict) or v.get('d') in swapped or v.get('d') in deciders:
                             continue
-                        if not any(isinstance(z, dict) and z.get('k') == 'var' and z.get('d') in (x['d'], y['d'])
-                                   for z in T.walk(v['init'])):
+                        mentioned = {z['d'] for z in T.walk(v['init'])
+                                     if isinstance(z, dict) and z.get('k') == 'var' and z.get('d') in (x['d'], y['d'])}
+                        # a value computed from BOTH operands may be symmetric in them (a->IsEmpty() || b->IsEmpty())
+                        # and then means the same after the swap: only one-sided snapshots are judged
+                        if len(mentioned) != 1:
                             continue
                         # used after the swap?
                         for b2 in f['blocks']:
@@ -196,7 +199,7 @@ def _ieval(x, env, inits, sym, depth=0):
     initialisers; any other leaf (a call such as NumTri()) is a free symbol valued by sym(text)"""
     x = T.strip_copy(x)
     k = x.get('k')
-    if k in ('int', 'lit', 'num') or (k == 'float'):
+    if k == 'int':
         v = x.get('v', x.get('val'))
         try:
             return int(str(v).rstrip('uUlLzZ'))
